@@ -117,28 +117,37 @@ def gen_full(rng):
     return scen(depth, 4, rtries, rng.below(2), progs, toks)
 
 
+def interleavings(counts):
+    """all sequences containing counts[i] copies of i"""
+    def rec(left):
+        if not any(left):
+            yield ()
+            return
+        for i, c in enumerate(left):
+            if c:
+                for rest in rec(left[:i] + (c - 1,) + left[i + 1:]):
+                    yield (i,) + rest
+    return rec(tuple(counts))
+
+
 def exhaustive_two_senders():
-    """all schedules of two senders x one claim/send each (6 operations each incl. one CAS retry) with the receiver's
-    attempts placed everywhere, on depth 1-2, with 0..depth buffers already held"""
+    """all schedules of two senders x one claim/send each on depth 1-2:
+    (A) claimers alone (6 operations each: 5 + one CAS retry), 0..depth buffers already held;
+    (B) one message already sent, so the receiver's receive/read/release (3 operations) interleaves with the two
+        claimers (5 operations each; operations left over after a CAS retry run at the end)"""
     out = []
     for depth in (1, 2):
         for held in range(0, depth + 1):
             progs = ['h'] * held + ['s1', 's1']
-            a, b, r = held, held + 1, held + 2
             fill = [f'{i}!' for i in range(held)]
-            for rtries, rsteps in ((0, 0), (1, 3)):
-                seen = set()
-                for pos in itertools.combinations(range(12 + rsteps), 6):
-                    rest = [i for i in range(12 + rsteps) if i not in pos]
-                    for rpos in itertools.combinations(rest, rsteps):
-                        toks = []
-                        for i in range(12 + rsteps):
-                            toks.append(str(a) if i in pos else (str(r) if i in rpos else str(b)))
-                        key = tuple(toks)
-                        if key in seen:
-                            continue
-                        seen.add(key)
-                        out.append(scen(depth, 4, rtries, 0, progs, fill + toks))
+            for seq in interleavings((6, 6)):
+                out.append(scen(depth, 4, 0, 0, progs, fill + [str(held + t) for t in seq]))
+    for (depth, pre) in ((1, ['s1']), (2, ['s1', 'h']), (2, ['s1'])):
+        progs = pre + ['s1', 's1']
+        fill = [f'{i}!' for i in range(len(pre))]
+        base = len(pre)
+        for seq in interleavings((5, 5, 3)):
+            out.append(scen(depth, 4, 1, 0, progs, fill + [str(base + t) for t in seq]))
     return out
 
 
@@ -233,7 +242,13 @@ def check_batch(ctx, exe, scs, label, timeout, stats):
     """compare implementation, model and monitor on a batch; returns number agreed, reports the first failure"""
     if not scs:
         return 0
-    impl = run_impl(exe, scs, timeout)
+    if len(scs) > 3000:          # big groups: the pthread harness is the slow side, run chunks of it in parallel
+        from concurrent.futures import ThreadPoolExecutor
+        chunks = [scs[o:o + 1500] for o in range(0, len(scs), 1500)]
+        with ThreadPoolExecutor(max_workers=min(12, os.cpu_count() or 2)) as ex:
+            impl = [r for part in ex.map(lambda c: run_impl(exe, c, timeout), chunks) for r in part]
+    else:
+        impl = run_impl(exe, scs, timeout)
     model = run_model(ctx, scs, timeout)
     agreed = 0
     for i, sc in enumerate(scs):
@@ -299,13 +314,13 @@ def run(ctx):
     if not quick:
         ex = exhaustive_two_senders()
         groups.append(('exhaustive-two-senders', ex))
-        ctx.cov['exhaustive'] = f'{len(ex)} schedules: every interleaving of two single-message senders (6 operations each) and 0 or 3 receiver operations, depth 1-2, 0..depth buffers pre-held'
+        ctx.cov['exhaustive'] = f'{len(ex)} schedules: every interleaving of two single-message senders (6 operations each) on depth 1-2 with 0..depth buffers pre-held, and every interleaving of two senders (5 operations each) with the receiver\'s receive/read/release of an already sent message on depth 1-2'
     total_agreed, per_group = 0, {}
     for (label, scs) in groups:
         nviol = len(ctx.violations)
         a = 0
-        for off in range(0, len(scs), 2000):
-            a += check_batch(ctx, exe, scs[off:off + 2000], label, 120 if quick else 900, stats)
+        for off in range(0, len(scs), 60000):
+            a += check_batch(ctx, exe, scs[off:off + 60000], label, 120 if quick else 900, stats)
             if len(ctx.violations) > nviol or ctx.broken:
                 break
         per_group[label] = {'scenarios': len(scs), 'agreed': a}
